@@ -95,7 +95,20 @@ fn exec_guarded<P: Property>(plan: &P::Plan, st: &mut Stats) -> Option<Violation
 }
 
 /// Worker: runs `start, start+step, ...` below `end`; writes a WorkerOut file.
+/// Backstop for the machine, not an oracle: cap the worker's address space so
+/// that a decoder that mis-reads a size cannot take the host down.  An
+/// allocation failure aborts the worker, which the driver reports as
+/// `process-death` for the run that was in flight.
+pub fn limit_address_space() {
+    let gb: u64 = std::env::var("VERIF_WORKER_AS_GB").ok().and_then(|s| s.parse().ok()).unwrap_or(3);
+    let lim = libc::rlimit { rlim_cur: gb << 30, rlim_max: gb << 30 };
+    unsafe {
+        libc::setrlimit(libc::RLIMIT_AS, &lim);
+    }
+}
+
 pub fn worker<P: Property>(tier: Tier, seed: u64, start: u64, step: u64, end: u64, out: &Path, want_digests: bool) -> i32 {
+    limit_address_space();
     let mut wo = WorkerOut::default();
     let stdout = std::io::stdout();
     let mut i = start;
@@ -646,6 +659,7 @@ pub fn confirm_in_child(prop: &str, plan: &Value, class: &str, dir: &Path) -> bo
 }
 
 pub fn minimise_cmd<P: Property>(inp: &Path, outp: &Path) -> i32 {
+    limit_address_space();
     let v: Value = match std::fs::read(inp).ok().and_then(|b| serde_json::from_slice(&b).ok()) {
         Some(v) => v,
         None => return 2,
@@ -658,6 +672,7 @@ pub fn minimise_cmd<P: Property>(inp: &Path, outp: &Path) -> i32 {
 
 /// `replay <file>`: exit 1 (+ VIOLATION line) iff the recorded class reproduces.
 pub fn replay_cmd<P: Property>(file: &Path, v: &Value) -> i32 {
+    limit_address_space();
     let class = v["violation"]["class"].as_str().unwrap_or("").to_string();
     match exec_value::<P>(&v["plan"]) {
         Err(e) => {
